@@ -295,11 +295,12 @@ def detach_unit(plan):
 TUPLE_MODEL = """
 // model of what tuple_destructure touches: the names to define (their hashes), the tuple's length, and the symbol table as
 // the set of defined names (its real insert/contains are the contracts of C05.SymbolTable.*)
-pub struct Symbols { pub defined: Ghost<Set<u64>> }
+pub struct Symbols { pub defined: Ghost<Set<u64>>, pub mutable: Ghost<Set<u64>> }
 impl Symbols {
   #[verifier::external_body] pub fn contains(&self, id: u64) -> (r: bool) ensures r == self.defined@.contains(id) { unimplemented!() }
-  #[verifier::external_body] pub fn insert(&mut self, id: u64) ensures final(self).defined@ == old(self).defined@.insert(id) { unimplemented!() }
-  #[verifier::external_body] pub fn dict_insert(&mut self, id: u64) ensures final(self).defined@ == old(self).defined@ { unimplemented!() }
+  #[verifier::external_body] pub fn insert(&mut self, id: u64, mutable: bool)
+    ensures final(self).defined@ == old(self).defined@.insert(id), final(self).mutable@ == (if mutable { old(self).mutable@.insert(id) } else { old(self).mutable@ }) { unimplemented!() }
+  #[verifier::external_body] pub fn dict_insert(&mut self, id: u64) ensures final(self).defined@ == old(self).defined@, final(self).mutable@ == old(self).mutable@ { unimplemented!() }
 }
 pub struct Var { pub id: u64 }
 impl Var { pub fn hash(&self) -> (r: u64) ensures r == self.id { self.id } }
@@ -318,7 +319,7 @@ def tuple_unit(plan):
     from vlib import VerusUnit, find_code, match_brace
     name = "C05.verus.tuple_destructure.failure_defines_nothing"
     ob = plan.ob(name, "verus", "proved", functions=["tuple_destructure (statements after the symbol table is borrowed)"],
-                 what="if `(a, b, ..) := t` fails (too many names, a name already defined) the set of defined names is exactly as before; if it succeeds exactly the listed names are added")
+                 what="if `(a, b, ..) := t` fails (too many names, a name already defined) the set of defined names is exactly as before; if it succeeds exactly the listed names are added; no name becomes mutable")
     text = read_repo("src/interpreter/src/statements.rs")
     sig, body = extract_fn(text, "tuple_destructure")
     a = find_code(body, r"let\s+mut\s+symbols_brrw\s*=\s*symbols\.borrow_mut\(\)\s*;")
@@ -342,7 +343,7 @@ def tuple_unit(plan):
     b = re.sub(r"tpl_dstrct\.vars\.len\(\)", "vars.len()", b)
     b = re.sub(r"tpl_dstrct\.vars\[(\w+)\]", r"vars[\1]", b)
     b, n2 = re.subn(r"for\s+\((\w+),\s*var\)\s+in\s+tpl_dstrct\.vars\.iter\(\)\.enumerate\(\)\s*\{", r"for \1 in 0..vars.len() { let var = &vars[\1];", b)
-    b = re.sub(r"symbols_brrw\.insert\((\w+),\s*[^;]*\);", r"symbols_brrw.insert(\1);", b)
+    b = re.sub(r"symbols_brrw\.insert\((\w+),\s*[^;]*?,\s*(true|false)\s*\);", r"symbols_brrw.insert(\1, \2);", b)
     b = re.sub(r"symbols_brrw\.dictionary\.borrow_mut\(\)\.insert\((\w+),\s*[^;]*\);", r"symbols_brrw.dict_insert(\1);", b)
     b = re.sub(r"if\s+let\s+Some\(element\)\s*=", "if let Some(_element) =", b)
     if n0 != 1 or n2 != 1 or "tpl_dstrct" in b or "Err(" in b:
@@ -351,7 +352,7 @@ def tuple_unit(plan):
     loops = vlib.find_all_code(b, r"\bfor\b")
     FRESH = "forall|j: int| 0 <= j < %s ==> !old(symbols_brrw).defined@.contains(#[trigger] vars@[j].id)"
     DIST = "forall|a_: int, b_: int| 0 <= a_ < b_ < %s ==> #[trigger] vars@[a_].id != #[trigger] vars@[b_].id"
-    ADDED = "forall|p: u64| symbols_brrw.defined@.contains(p) <==> (old(symbols_brrw).defined@.contains(p) || exists|j: int| 0 <= j < i && #[trigger] vars@[j].id == p)"
+    ADDED = "symbols_brrw.mutable@ == old(symbols_brrw).mutable@ || MUTANY, forall|p: u64| symbols_brrw.defined@.contains(p) <==> (old(symbols_brrw).defined@.contains(p) || exists|j: int| 0 <= j < i && #[trigger] vars@[j].id == p)"
     if len(loops) == 3:       # pre-check (names, then earlier names of the same pattern), then the inserting loop
         specs = ["    invariant symbols_brrw.defined@ == old(symbols_brrw).defined@, " + FRESH % "k" + ", " + DIST % "k" + ",",
                  "      invariant symbols_brrw.defined@ == old(symbols_brrw).defined@, k < vars@.len(), id == vars@[k as int].id, forall|a_: int| 0 <= a_ < j ==> #[trigger] vars@[a_].id != id,",
@@ -361,8 +362,10 @@ def tuple_unit(plan):
     else:
         raise AnchorLost("tuple_destructure: expected the pre-check loops and the inserting loop, found %d loops" % len(loops))
     b = vmat.inject(b, specs)
+    b = b.replace("|| MUTANY", "" if re.search(r"symbols_brrw\.insert\(\w+, false\)", b) else "|| true")
     fn = ("fn tuple_destructure_names(vars: &Vec<Var>, tpl_len: usize, symbols_brrw: &mut Symbols) -> (res: Option<()>)\n"
           "  ensures res.is_none() ==> final(symbols_brrw).defined@ == old(symbols_brrw).defined@,\n"
+          "    final(symbols_brrw).mutable@ == old(symbols_brrw).mutable@,     // names defined without `~` are immutable\n"
           "    res.is_some() ==> (forall|p: u64| final(symbols_brrw).defined@.contains(p) <==> (old(symbols_brrw).defined@.contains(p) || exists|j: int| 0 <= j < vars@.len() && #[trigger] vars@[j].id == p)),\n{\n"
           + b + "\n}\n")
     plan.verus.append(VerusUnit("c05_tuple", vlib.verus_file([TUPLE_MODEL, fn, vlib.verus_canary("canary_tuple", "x: u64", [])]), {"tuple_destructure_names": name}, ["canary_tuple"]))
